@@ -84,9 +84,13 @@ TextOf(f, cs, fl) ==
                \o On(fl, "disc", <<Dir("discontiguous", PN(f), 1), Dir("discontiguous", QN(f), 2)>>)
                \o On(fl, "multi", <<Dir("multifile", MN, 1)>>)
                \o On(fl, "op", <<Dir("op", "===>", 700)>>)
-               \o On(fl, "init", <<Dir("initialization", "true", 0)>>),
+               \o On(fl, "init", <<Dir("initialization", "true", 0)>>)
+               \o On(fl, "xdyn", <<Dir("dynamic", DN(Other(f)), 1)>>),     \* declares the OTHER family's d/1 dynamic, defines nothing
       cl   |-> On(fl, "multi", <<Fact(C1(MN, A(f))), Fact(C1(MN, I(IF f = "x" THEN 1 ELSE 2)))>>)
                \o On(fl, "dyn", <<Fact(C1(DN(f), I(1))), Fact(C1(DN(f), I(2)))>>)
+               (* clauses of d/1 WITHOUT the declaration (a program split into a declarations file and a facts file) *)
+               \o On(fl, "dcl", <<Fact(C1(DN(f), I(1))), Fact(C1(DN(f), I(2))), Cl(C1(DN(f), I(3)), True)>>)
+               \o On(fl, "dcl2", <<Fact(C1(DN(f), I(4)))>>)
                \o core
                \o On(fl, "op", <<Fact(C1(ON(f), C2("===>", la, lb)))>>)
                \o On(fl, "float", <<Fact(C1(FN(f), Flt("3FF4000000000000"))), Fact(C1(FN(f), Flt("42174876E8000000")))>>)   \* 1.25, 2.5e10
@@ -155,9 +159,19 @@ Probe(L, K) ==
       q    == C3("catch", C3("findall", tmpl, C(K[1], args), V("L")), C2("error", V("E"), V("_W")), True)
       m    == Run(Load(ProgFor(L, Reach(K), 1), Exists(L), q))
       ok   == m.status = "done" /\ Len(m.ans) = 1
-  IN [key |-> K, status |-> m.status, n |-> Len(m.ans),
+  IN [key |-> K, kind |-> "call", status |-> m.status, n |-> Len(m.ans),
       l |-> IF ok THEN m.ans[1][K[2] + 1] ELSE None,
       e |-> IF ok THEN m.ans[1][K[2] + 2] ELSE None]
+
+(* probe of a dynamic predicate K/1 through clause/2 (the clause store may disagree with what a call sees):            *)
+(* catch(findall(X-B, clause(K(X), B), L), error(E, _), true)                                                          *)
+ProbeCl(L, K) ==
+  LET q  == C3("catch", C3("findall", C2("-", LX, V("B")), C2("clause", C(K[1], <<LX>>), V("B")), V("L")), C2("error", V("E"), V("_W")), True)
+      m  == Run(Load(ProgFor(L, Reach(K), 1), Exists(L), q))
+      ok == m.status = "done" /\ Len(m.ans) = 1
+  IN [key |-> K, kind |-> "clause", status |-> m.status, n |-> Len(m.ans),
+      l |-> IF ok THEN m.ans[1][3] ELSE None,
+      e |-> IF ok THEN m.ans[1][4] ELSE None]
 
 (* ---- abstract footprint: the quantities of L whose size the counters of the machine reflect ---- *)
 RECURSIVE AtomsIn(_)
